@@ -16,6 +16,7 @@ pub fn sigma06() -> Vec<char> {
         0x301, 0x1C5, // mark, titlecase
         0x09, 0x378, // disallowed, unassigned
         0x3131, // compat jamo: NFKC gives U+1100, which re-validation must reject
+        0x334,  // combining overlay (ccc 1, NFKC_QC=Yes): between a base and a composing mark
     ]
     .iter()
     .map(|c| char::from_u32(*c).unwrap())
@@ -76,13 +77,26 @@ pub fn run(env: &Env, run: &Run) -> (Stats, Coverage) {
             let s = from_cps(&l);
             visit(env, &s, st);
         }
+        for a in alias_chars(c) {
+            visit(env, &from_cps(&[x, a as u32]), st);
+        }
     }));
+
+    // structural families: pumped runs a^k b / b a^k / a^k b a (k around 8, 16, 32, 64 and, for a
+    // few symbols, 128..1025) and every ASCII character at every offset of 7..33-byte ASCII strings
+    let fam = {
+        let mut v = pumped(&sigma, &PUMP_LENGTHS);
+        v.extend(pumped(&sigma[..sigma.len().min(6)], &PUMP_LENGTHS_LONG));
+        v.extend(ascii_blocks());
+        v
+    };
+    st.merge(run_family(&fam, |s, st| visit(env, s, st)));
     let max_rounds = (1..=4).rev().find(|r| st.counters.get(&format!("rounds:{}", r)).copied().unwrap_or(0) > 0).unwrap_or(0);
     st.sample(json!({"input": ["U+00A8", "a"], "expected": "round 1: NFKC gives ' ' U+0308 a; round 2 trims the space: 'U+0308 a'; round 3 confirms"}));
     st.sample(json!({"input": ["U+00E9", " ", " ", "b"], "expected": "Ok(\"U+00E9 b\") - interior run collapses to one space next to a 2-byte character"}));
     st.sample(json!({"input": ["U+3131"], "expected": "Err(BadCodepoint{0x1100,0,Disallowed}) from the second round's validation"}));
     let cov = Coverage {
-        rule: format!("every string of length <= {} over a 20-symbol alphabet (spaces of 1-3 bytes, letters of 1-4 bytes, characters whose NFKC form introduces spaces or needs re-validation) and of length <= {} over 8 space/length symbols, + every scalar value in 7 templates; oracle = RFC 8264 s.7 iteration of (non-empty -> FreeformClass -> Zs to space/trim/collapse -> NFKC -> non-empty); every accepted result is re-enforced and re-run through one reference application (fixed point); non-trivial = inputs needing at least two applications", n, n2),
+        rule: format!("every string of length <= {} over a 21-symbol alphabet (spaces of 1-3 bytes, letters of 1-4 bytes, characters whose NFKC form introduces spaces or needs re-validation) and of length <= {} over 8 space/length symbols, + pumped runs and ASCII block strings + every scalar value in 7 templates and next to each of its bit-16..20 aliases; oracle = RFC 8264 s.7 iteration of (non-empty -> FreeformClass -> Zs to space/trim/collapse -> NFKC -> non-empty); every accepted result is re-enforced and re-run through one reference application (fixed point); non-trivial = inputs needing at least two applications", n, n2),
         alphabet: json!({"general": sigma.iter().map(|c| format!("U+{:04X}", *c as u32)).collect::<Vec<_>>(), "space": sp.iter().map(|c| format!("U+{:04X}", *c as u32)).collect::<Vec<_>>()}),
         bound_completed: format!("length <= {} ({} strings) and <= {} ({} strings); sweep 1,112,064 x 7", n, tree_size(sigma.len(), n), n2, tree_size(sp.len(), n2)),
         exhaustive: false,
